@@ -383,3 +383,85 @@ def replay_schedule(chk, col, bindir, rp):
     r = T.run_probe(chk, bindir, "replay", rp["script"], strace=False, timeout=300)
     col.add(r, "replay")
     col.flush("replay")
+
+
+# ------------------------------------------------------------------------------------------------
+# B2 at algorithm level: free-running executions must be behaviours of ThreadLife
+# ------------------------------------------------------------------------------------------------
+def alg_class(run, t):
+    prog = {"join": "ProgJ", "drop": "ProgD"}.get(t.op, "ProgK")
+    fin = "FinP" if t.fin_plan == "panic" else "FinR"
+    fm = fc = "NoThread"
+    if t.spawn_ok is False:
+        prog = "ProgK"
+        if run.inject and run.inject.startswith("mmap"):
+            fm = "Only1"
+        else:
+            fc = "Only1"
+    return (prog, fin, fm, fc)
+
+
+def alg_record(t):
+    ha = list(t.arr_h)
+    # the arrival after spawn returned is "done" when no handle operation follows
+    if t.op is None or t.spawn_ok is False:
+        ha = ha[:-1] + [("done", ha[-1][1])] if ha and ha[-1][0] == "60" and len(ha) > 1 else ha
+    ta = list(t.arr_t)
+    hn = [sum(1 for (_, s2) in ta if s2 < s1) for (_, s1) in ha]
+    tn = [sum(1 for (_, s2) in ha if s2 < s1) for (_, s1) in ta]
+    return {"ha": [p for p, _ in ha], "ta": [p for p, _ in ta], "hn": hn, "tn": tn}
+
+
+def alg_validate(chk, col, cap=None, tag=""):
+    """TLC decides for every recorded free-running thread life whether its sequence of protocol
+    points (owner and thread, with only the ordering the log guarantees) is a behaviour of the
+    algorithm-level model with separate kernel steps.  Rejections are model drift, not violations."""
+    d = os.path.join(chk.work, "alg")
+    os.makedirs(d, exist_ok=True)
+    classes = {}
+    for (run, t) in col.alg:
+        if t.timeout or run.info.get("abort") or run.info.get("crash") or run.killed:
+            continue
+        if t.op is not None and not any(p == "done" for p, _ in t.arr_h):
+            continue
+        classes.setdefault(alg_class(run, t), []).append((run, t))
+    jobs = []
+    for cls, lst in sorted(classes.items()):
+        if cap is not None and len(lst) > cap:
+            step = len(lst) / float(cap)
+            lst = [lst[int(i * step)] for i in range(cap)]
+        name = "%s%s-%s-%s%s" % (cls[0], cls[1], cls[2], cls[3], tag)
+        path = os.path.join(d, name + ".ndjson")
+        core.write_ndjson(path, [alg_record(t) for (_, t) in lst])
+        cfg = os.path.join(d, name + ".cfg")
+        lines = ["INIT AInit", "NEXT ANext", "CONSTANTS", " NT = 1", " Prog <- %s" % cls[0], " Fin <- %s" % cls[1],
+                 " Spurious = 1", " FailMmap <- %s" % cls[2], " FailClone <- %s" % cls[3],
+                 " RecheckWord = TRUE", " CheckClone = TRUE", " MmapFirst = TRUE", " DropResult = TRUE",
+                 " KernelAtomic = FALSE", "INVARIANT Report", "CHECK_DEADLOCK FALSE"]
+        open(cfg, "w").write("\n".join(lines) + "\n")
+        jobs.append((name, cls, lst, path, cfg))
+
+    def one(job):
+        name, cls, lst, path, cfg = job
+        return core.run_tlc("ThreadLifeAlg_MC", cfg, workers=2, env={"TRACE": path}, timeout=900, xmx="2g",
+                            metadir=os.path.join(d, "md-" + name))
+
+    with ThreadPoolExecutor(max_workers=4) as ex:
+        results = list(ex.map(one, jobs))
+    total = acc = 0
+    rejected = []
+    per = []
+    for (name, cls, lst, path, cfg), res in zip(jobs, results):
+        core.tlc_must_pass(res, "ThreadLifeAlg " + name)
+        chk.add_tlc(res)
+        ok = {int(x) for x in re.findall(r'^<<"ALGACC", (\d+)>>', res.out, re.M)}
+        total += len(lst)
+        acc += len(ok)
+        per.append({"class": list(cls), "traces": len(lst), "accepted": len(ok), "states": res.distinct})
+        for i, (run, t) in enumerate(lst):
+            if (i + 1) not in ok and len(rejected) < 5:
+                rejected.append({"class": list(cls), "run": run.name, "k": t.k, "record": alg_record(t)})
+    chk.extra["alg_trace_validation" + tag] = {"traces": total, "accepted": acc, "classes": per}
+    if rejected:
+        chk.extra["alg_trace_rejected_examples" + tag] = rejected
+    return total, acc
